@@ -3,6 +3,8 @@ import Cicada.Model.ParserLine
 import Cicada.Model.Execute
 import Cicada.Model.Subst
 import Cicada.Model.Core
+import Cicada.Model.Alias
+import Cicada.Spec.C17
 import Cicada.Spec.C03
 import Cicada.Spec.C01
 import Cicada.Spec.C10
@@ -247,7 +249,16 @@ def answer (stream : String) (f : Array String) : Ans :=
       if !C03.guard p then { m := m, guard := "0" } else
       let r := C03.specList run prev p
       { m := m, s := traceOut r.trace ++ "|" ++ toString r.sh, guard := "1" }
-  | "xalias" => { m := toksOut (expandAlias (envIn (g 0)).env (toksIn (g 1))) }
+  | "xalias" =>
+    let e := (envIn (g 0)).env
+    let a : Ans := { m := toksOut (expandAlias e (toksIn (g 1))) }
+    if g 2 = "c17" then
+      let stages := if g 3 = "[]" then [] else ((g 3).splitOn ";").map (fun s => if s = "-" then [] else toksIn s)
+      if C17.joinStages stages ≠ toksIn (g 1) then { a with s := "RENDER-MISMATCH" } else
+      let ok := C17.guard stages
+      { a with s := toksOut (C17.specAlias e.aliases stages), guard := if ok then "1" else "0",
+               cls := if ok then "-" else "xargs" }
+    else a
   | "xhome" => { m := toksOut (expandHome (envIn (g 0)).env (toksIn (g 1))) }
   | "xenv" =>
     let e := (envIn (g 0)).env
@@ -364,6 +375,58 @@ def answer (stream : String) (f : Array String) : Ans :=
         else "dq-command-substitution"
       { a with s := spec, guard := if guard then "1" else "0", cls := cls }
     else a
+  | "bseq" =>
+    -- a sequence of builtin lines on one shell: alias / unalias / `use <tokens…>` (expand_alias on parse_line)
+    let es := envIn (g 0)
+    let lines := if g 1 = "[]" then [] else ((g 1).splitOn ",").map unhex
+    let sortLines (s : Str) : Str :=
+      let ls := (splitOnChar '\n' s).map String.ofList
+      (String.intercalate "\n" (ls.toArray.qsort (· < ·)).toList).toList
+    let step (st : List (Str × Str) × List String) (line : Str) : List (Str × Str) × List String :=
+      let (A, outs) := st
+      let env : Env := { es.env with aliases := A }
+      if startsWith line "use ".toList then
+        (A, outs ++ ["use|" ++ toksOut (expandAlias env (parseLine (line.drop 4)))])
+      else
+        match planOf { env := env, cmdOut := es.subst.cmdOut } (planFuel line) line with
+        | .ok (.ok p) =>
+          (match p.commands with
+           | c :: _ =>
+             let name := (c.tokens.head?.map (·.2)).getD []
+             let sortedA := (A.toArray.qsort (fun a b => String.ofList a.1 < String.ofList b.1)).toList
+             let r : Option (List (Str × Str) × BuiltinOut) :=
+               if name = "alias".toList then some (aliasBuiltin A c.tokens sortedA)
+               else if name = "unalias".toList then some (unaliasBuiltin A c.tokens)
+               else none
+             (match r with
+              | some (A', o) => (A', outs ++ [toString o.status ++ "|" ++ hex (sortLines o.out) ++ "|" ++ hex o.err])
+              | none => (A, outs ++ ["not-builtin"]))
+           | [] => (A, outs ++ ["empty"]))
+        | .ok (.error e) => (A, outs ++ ["err|" ++ hex e.toList])
+        | _ => (A, outs ++ ["HANG-OR-PANIC"])
+    let (A, outs) := lines.foldl step (es.env.aliases, [])
+    let sortedA := (A.toArray.qsort (fun a b => String.ofList a.1 < String.ofList b.1)).toList
+    { m := ";".intercalate outs ++ "#" ++ pairsOut sortedA }
+  | "aliasrt" =>
+    -- print every alias with `alias`, feed the printed lines to a fresh shell, dump its table
+    let es := envIn (g 0)
+    let A0 := es.env.aliases
+    let sortedA := (A0.toArray.qsort (fun a b => String.ofList a.1 < String.ofList b.1)).toList
+    let lines := sortedA.map (fun p => aliasLine p.1 p.2)
+    let A1 := lines.foldl (fun (A : List (Str × Str)) line =>
+      match planOf { env := { es.env with aliases := A }, cmdOut := es.subst.cmdOut } (planFuel line) line with
+      | .ok (.ok p) =>
+        (match p.commands with
+         | c :: _ => (aliasBuiltin A c.tokens []).1
+         | [] => A)
+      | _ => A) []
+    let sorted1 := (A1.toArray.qsort (fun a b => String.ofList a.1 < String.ofList b.1)).toList
+    let sq := A0.any (fun p => p.2.contains '\'')
+    let gt := A0.any (fun p => p.2.contains '>')
+    let emp := A0.any (fun p => p.2.isEmpty)
+    let okv := !sq && !gt && !emp
+    { m := pairsOut sorted1, s := if emp then "-" else pairsOut sortedA, guard := if okv then "1" else "0",
+      cls := if okv then "-" else if sq then "list-squote" else if gt then "value-gt" else "outside-statement:empty-value" }
   | "globneeds" =>
     -- which patterns will `expand_glob` hand to the glob crate for this case (f2: line | line1 | tokens)
     let es := envIn (g 0)
